@@ -3,8 +3,9 @@ import os, sys, json, time, subprocess, re, fcntl, hashlib, collections, shutil
 
 ROOT = os.path.dirname(os.path.dirname(os.path.abspath(__file__)))
 LEAN = os.path.join(ROOT, "lean")
-HARN = os.path.join(ROOT, "harness")
-BUILD = os.path.join(ROOT, "build")
+HARN = os.environ.get("VERIF_HARNESS", os.path.join(ROOT, "harness"))     # overrides: only used by tools/seedtest.sh (scratch copies)
+BUILD = os.environ.get("VERIF_BUILD", os.path.join(ROOT, "build"))
+OUTDIR = os.environ.get("VERIF_OUT", ROOT)                                # where evidence/ and replays/ are written
 REPO = os.environ.get("VERIF_REPO", "/repo")
 DRV = os.path.join(LEAN, ".lake", "build", "bin", "hcdrv")
 HBIN = os.path.join(BUILD, "cargo", "release", "hcharness")
@@ -213,7 +214,7 @@ def match_known(prop, fail, known):
 # ---------------------------------------------------------------- main check
 
 def write_replay(prop, seed, payload):
-    d = os.path.join(ROOT, "replays"); os.makedirs(d, exist_ok=True)
+    d = os.path.join(OUTDIR, "replays"); os.makedirs(d, exist_ok=True)
     p = os.path.join(d, f"{prop}-{seed}.json")
     json.dump(payload, open(p, "w"), indent=1)
     return p
@@ -223,7 +224,7 @@ def check(prop, tier, seed, budget=None):
     cfg = PROPS.P[prop]
     log = []
     broken = []       # broken obligations / correspondence (names)
-    os.makedirs(os.path.join(ROOT, "evidence"), exist_ok=True)
+    os.makedirs(os.path.join(OUTDIR, "evidence"), exist_ok=True)
     with Lock(".buildlock"):
         rc, out = run_extract()
         if rc != 0: broken.append({"obligation": "Gen extraction (tools/extract.py)", "detail": out[-3000:]})
@@ -310,7 +311,7 @@ def check(prop, tier, seed, budget=None):
         "known_findings_hit": list(known_hits.keys()),
     }
     if cfg.get("extra_coverage"): ev["coverage"].update(cfg["extra_coverage"](res))
-    json.dump(ev, open(os.path.join(ROOT, "evidence", prop + ".json"), "w"), indent=1)
+    json.dump(ev, open(os.path.join(OUTDIR, "evidence", prop + ".json"), "w"), indent=1)
     if status == 0:
         print(f"OK property={prop} tier={tier} obligations={discharged}/{obligations} cases={res.n} nontrivial={len(res.nontrivial)} wall={ev['wall_s']}s")
     return status
